@@ -71,12 +71,16 @@ Proof.
 Qed.
 
 (* ---- hash tables outside the guard --------------------------------------------------------------------- *)
+(* bignum and ratio keys (findings C16-hash-bignum-key-by-pointer / C16-hash-ratio-key-by-pointer, repaired by
+   C16-5): separately allocated copies of one value are one key *)
 Definition e20 : Z := 100000000000000000000.
-Definition pool_big : list ref := [mkref (Big e20) 0; mkref (Big e20) 1].
-Lemma table_bignum_key_refuted :
-  t_run pool_big [] [HPut 0 1; HGet 1; HPut 1 2; HCount] = [OVal 1; OGet None; OVal 2; ONum 2] /\
-  s_run pool_big (pool_test 1 pool_big) [] [HPut 0 1; HGet 1; HPut 1 2; HCount] = [OVal 1; OGet (Some 1); OVal 2; ONum 1] /\
-  pool_coherent pool_big (pool_test 1 pool_big) = false /\ pool_equiv pool_big (pool_test 1 pool_big) = true.
+Definition pool_big : list ref := [mkref (Big e20) 0; mkref (Big e20) 1; mkref (Rat 1 2) 2; mkref (Rat 1 2) 3; mkref (Big (e20 + 1)) 4].
+Definition ops_big : list hop := [HPut 0 1; HGet 1; HPut 1 2; HCount; HPut 2 7; HGet 3; HGet 4; HMap; HRem 3; HCount; HGet 2].
+Lemma table_bignum_key_by_value :
+  t_run pool_big [] ops_big =
+    [OVal 1; OGet (Some 1); OVal 2; ONum 1; OVal 7; OGet (Some 7); OGet None; OEntries [(0%nat, 2); (2%nat, 7)]; OBool true; ONum 1; OGet None] /\
+  s_run pool_big (pool_test 1 pool_big) [] ops_big = t_run pool_big [] ops_big /\
+  simple_pool pool_big = true /\ pool_ok pool_big (pool_test 1 pool_big) = true.
 Proof. vm_compute. repeat split; reflexivity. Qed.
 
 Definition pool_flt : list ref := [mkref (Fix 5) 0; mkref (Flt FDouble 5 0) 1].
